@@ -35,7 +35,7 @@ func runOne(prop, variant string, verifSeed uint64, idx, nSites int, src map[str
 	}
 	run := kernel.NewRun(t, res, trace)
 	start := time.Now()
-	conc.Run(run, conc.Params{NSites: nSites, Idx: idx, SetHook: func(h func(uint32)) { verifsim.Hook = h }, SetBlockHook: func(h func(uint32)) { verifsim.BlockHook = h }, SetSyncHook: func(h func(uint32)) { verifsim.SyncHook = h }})
+	conc.Run(run, conc.Params{NSites: nSites, Idx: idx, SetHook: func(h func(uint32)) { verifsim.Hook = h }, SetBlockHook: func(h func(uint32)) { verifsim.ResetPending(); verifsim.BlockHook = h }, SetSyncHook: func(h func(uint32)) { verifsim.SyncHook = h }})
 	run.Finish()
 	res.WallUS = time.Since(start).Microseconds()
 	res.Tape = t.Record()
